@@ -212,6 +212,9 @@ func runC17(p *Program, r *Result) {
 				}
 			}
 		}
+		if !okEmpty {
+			okEmpty = emptyRejectedInExpression(tb, vpn)
+		}
 		r.Check(okEmpty, vpn.String(), "empty", "", "the empty name is rejected", "the empty string is not rejected")
 		// loop over all runes
 		var loop *RangeLoop
